@@ -120,6 +120,9 @@ def check(ctx):
         runner.run_job(ctx, _job(ctx, "auto", o, a))
         paths.append(o)
     st = _stats(paths)
+    # in composition: a listed client is answered with its address by the file plugin, which ENDS the chain (whole chains, Conv)
+    from . import fam_conv
+    st.update(fam_conv.run(ctx))
     st["binding_selftest"] = selftest(ctx, paths[0]) if not ctx.violations else {"skipped": "violations reported"}
     ctx.trusted += ["harness/file.go: rendering of abstract lines to text (seeded MAC/IP spellings), single-syscall edits, "
                     "reading the served mapping back through the handlers, address -> id", "fsnotify delivering one event per write syscall",
@@ -138,5 +141,8 @@ def check(ctx):
 
 def replay(ctx, path):
     meta = json.load(open(os.path.join(path, "meta.json")))
+    if meta.get("family") == "conv":
+        from . import fam_conv
+        return fam_conv.replay(ctx, path)
     j = runner.TraceJob("replay", "FileTrace", None, {"Lens": core.tla_set([ctx.prop])}, replay=_rerun(meta.get("rerun_args", ["-mode", "dual", "-count", 60])))
     return runner.replay_dir(ctx, path, j)
